@@ -4,7 +4,7 @@ from .speccommon import err_lines
 
 LEVEL = "proof"
 
-KEYWORDS = ["if", "else", "in", "int", "while", "for", "==", "=", "<", "<=", "+", "++", "a", "ab", "x1", "\\\"", "a\\\\b", "\\+", "(", "0"]
+KEYWORDS = ["if", "else", "in", "int", "while", "for", "==", "=", "<", "<=", "+", "++", "a", "ab", "x1", "\\\"", "a\\\\b", "\\+", "(", "0", "\\\\/", "\\\\n", "\\\\\\\\", "\\\\", "\\a\\b", "x\\\\"]
 PATTERNS = ["[a-z]+", "[a-z][a-z0-9_]*", "[0-9]+", "[0-9]+(\\.[0-9]+)?", "[a-c]+", "(a|b)+", "[ab]+", "if|in", "i[a-z]*", "\\d+", "\\s+", "[A-Z][a-z]*",
             "x*y", "a?b", "=+", "<=?", "\\+\\+?", "[a-z]{2,3}", "(ab)*a?", "[0-9a-f]+", "0x[0-9a-f]+", "\\w+", "[ \\t]+", "a{2}", "while|w", "\"[a-z]*\"",
             ".", ".+", "[^a]", "[^ab]+x", "\\D", "i.", "#.*", "[:alpha:]+", "[[:alpha:]_][[:alnum:]_]*", "\\p{Lu}\\p{Ll}*", "\\x41+", "\\x0041", "-?[0-9]+"]
@@ -29,6 +29,28 @@ def gen_defs(rng):
     rng.shuffle(uses)
     rng.shuffle(decls)
     return "grammar g;\nstart = %s;\n%s\n" % (" ".join(uses), "\n".join(decls))
+
+
+def unescape(lit):
+    """the documented value of a string literal: a backslash makes the next character literal"""
+    out, i = [], 0
+    while i < len(lit):
+        if lit[i] == "\\" and i + 1 < len(lit):
+            i += 1
+        out.append(lit[i]); i += 1
+    return "".join(out)
+
+
+def expected_values(text):
+    """terminal -> documented value of every string definition written in the specification text"""
+    exp = {}
+    for m in re.finditer(r'^([A-Z][A-Z0-9_]*) = "((?:[^"\\]|\\.)*)";$', text, re.M):
+        exp[m.group(1)] = unescape(m.group(2))
+    start = re.search(r"^start = (.*);$", text, re.M)
+    if start:
+        for m in re.finditer(r'"((?:[^"\\]|\\.)*)"', start.group(1)):
+            exp[m.group(1)] = unescape(m.group(1))
+    return exp
 
 
 def chain_dfa(value):
@@ -187,6 +209,12 @@ def run(ctx):
             stats["rejected_earlier"] += 1      # duplicate values / invalid patterns: C07's subject
             continue
         defs = p["defs"]
+        # a string literal denotes its own characters, with backslash escapes resolved
+        exp = expected_values(t)
+        for (term, value, isre) in defs:
+            if not isre and term in exp and value != exp[term]:
+                ctx.add_violation("a string literal does not denote its own characters: terminal %r has the value %r, the literal written denotes %r" % (term, value, exp[term]),
+                                  {"input": t, "input_hex": hx(t.encode()), "terminal": term, "implementation_value": value, "documented_value": exp[term]})
         def autos(table):
             out = []
             for (_, v, r) in defs:
